@@ -22,7 +22,8 @@ pub struct Binding {
 pub fn cfg() -> Cfg {
     Cfg {
         pool: 5,
-        max_decls: 8,
+        max_decls: 7,
+        max_modules: 4,
         ..Cfg::default()
     }
 }
